@@ -9,7 +9,7 @@ reference encodes; (3) fixpoint: one forced extra pass changes neither code file
 (also over the whole golden corpus).
 """
 import re
-from vf import engine, asl, corpus, golden
+from vf import engine, asl, corpus, golden, variants, statepool
 from vf.gen import composite
 
 ID = "C01"
@@ -52,6 +52,12 @@ def budget(tier):
 
 @composite
 def strategy_(d, tier):
+    if d.bool(0.3):
+        # a golden program (or a line-edited variant of it) that ends with statements which change assembler
+        # state but emit nothing: one further pass must still not change anything
+        names = corpus.names()
+        name = names[d.int(0, len(names) - 1)]
+        return dict(golden=name, tail=statepool.draw(d, name), var=variants.ops_strategy(d) if d.bool(0.3) else None)
     tn = d.choice(sorted(TARGETS))
     nlab = d.int(1, 6)
     nitems = d.int(3, 26 if tier == "quick" else 60)
@@ -83,6 +89,11 @@ def strategy_(d, tier):
             kind = d.choice(KINDS[tn])
             items.append(["ref", kind, d.choice(labs), rid])
             rid += 1
+    if tn == "6809" and d.bool(0.5):
+        # direct page assumptions in the middle of the code: auto-sized operands in front of them must not be
+        # assembled with the page a later ASSUME (of this or of the previous pass) sets
+        for _ in range(d.int(1, 2)):
+            items.insert(d.int(0, len(items)), ["assume", d.weighted([(3, 1), (2, 0), (2, 2), (1, 3), (1, 255)])])
     # the whole code area may be assembled under a PHASE offset D (labels = load address + D)
     D = d.weighted([(5, 0), (1, 0x100), (1, 0x40), (1, 0x1000), (1, 0x12)])
     return dict(target=tn, origin=d.choice(TARGETS[tn]["origins"]), items=items, padding=d.bool(0.7), phase=D)
@@ -101,6 +112,8 @@ def worst_distance(items, i, j):
             tot += 5
         elif it[0] == "fill":
             tot += it[1] + 1
+        elif it[0] == "assume":
+            pass
         else:
             tot += 4 + MAXSZ[it[1]] + 1
     return tot
@@ -128,6 +141,8 @@ def render(case):
                 L.append("lab%d:\tdc.w 42330,%d" % (k, k))
             else:
                 L.append("lab%d:\t%s 165,90,%d,%d" % (k, B, k >> 8, k & 255))
+        elif it[0] == "assume":
+            L.append("\tassume dpr:%d" % it[1])
         elif it[0] == "fill":
             n = it[1]
             if n:
@@ -180,7 +195,18 @@ def s16(x):
     return x - 65536 if x > 32767 else x
 
 
-def decode(tn, kind, mem, a):
+def pages_of(case):
+    """{reference id: direct page assumed where the reference stands} (6809 ASSUME DPR items)"""
+    out, page = {}, 0
+    for it in case["items"]:
+        if it[0] == "assume":
+            page = it[1]
+        elif it[0] == "ref":
+            out[it[3]] = page
+    return out
+
+
+def decode(tn, kind, mem, a, dp=0):
     """value encoded by the reference whose first byte is at address a; returns (value, size)"""
     def b(i):
         return mem[a + i]
@@ -231,12 +257,12 @@ def decode(tn, kind, mem, a):
             return be16(0), 2
         if kind == "abs":
             if b(0) == 0x96:
-                return b(1), 2
+                return (dp << 8) | b(1), 2
             if b(0) == 0xb6:
                 return be16(1), 3
         if kind == "jmp":
             if b(0) == 0x0e and tn == "6809":
-                return b(1), 2
+                return (dp << 8) | b(1), 2
             if b(0) == 0x7e:
                 return be16(1), 3
         if kind == "bra" and b(0) == 0x16:
@@ -352,6 +378,9 @@ def execute(case):
                               key, classes, **detail)
     # references
     npass = len(re.findall(r"^PASS ", r.out, re.M))
+    pages = pages_of(case)
+    if any(it[0] == "assume" for it in items):
+        classes.append("assume-dpr")
     for rid, kind, k, fwd in refs:
         pat = bytes([0xc3, 0x3c, rid >> 8, rid & 255])
         hits = find_all(mem, pat)
@@ -359,7 +388,7 @@ def execute(case):
             return engine.discarded("marker-not-unique", classes)
         a = hits[0] + 4
         try:
-            v, size = decode(tn, kind, mem, a)
+            v, size = decode(tn, kind, mem, a, pages.get(rid, 0))
         except (KeyError, ValueError) as e:
             return engine.bad("reference %d (%s lab%d) not decodable at $%x: %s" % (rid, kind, k, a, e), key, classes,
                               **detail)
@@ -405,25 +434,41 @@ def find_all(mem, pat):
 def execute_golden(case):
     name = case["golden"]
     classes = ["golden"]
-    r1 = golden.assemble_golden(name, args=("-L",), want=(name + ".lst",), env={"ASL_VERIF_MAX_PASSES": "400"})
+    src = None
+    edited = bool(case.get("tail") or case.get("var"))
+    if edited:
+        src = corpus.load(name)["src"]
+        if case.get("var"):
+            src = variants.apply(src, case["var"])
+            classes.append("golden-variant")
+        if case.get("tail"):
+            src = statepool.append_before_end(src, case["tail"])
+            classes.append("state-at-end")
+            classes += ["tail:" + t.split()[0] for t in case["tail"]]
+    r1 = golden.assemble_golden(name, src=src, args=("-L",), want=(name + ".lst",), env={"ASL_VERIF_MAX_PASSES": "400"})
     if r1["timed_out"]:
         return engine.inconclusive("timeout", classes)
     if r1["status"] == 98:
         return engine.inconclusive("pass cap", classes)
-    if not r1["ok"]:
+    if edited:
+        if r1["status"] != 0 or r1["p"] is None:
+            return engine.discarded("edited-golden-invalid", classes)
+    elif not r1["ok"]:
         return engine.bad("golden test %s does not reproduce its .ori (status %s)" % (name, r1["status"]), name,
                           classes, stderr=r1["r"].err[-400:])
-    r2 = golden.assemble_golden(name, args=("-L",), want=(name + ".lst",),
+    r2 = golden.assemble_golden(name, src=src, args=("-L",), want=(name + ".lst",),
                                 env={"ASL_VERIF_MAX_PASSES": "400", "ASL_VERIF_EXTRA_PASSES": "1"})
     if r2["timed_out"]:
         return engine.inconclusive("timeout", classes)
+    key = "golden:" + name + (":" + engine.digest(str(case.get("tail")) + str(case.get("var")))[:8] if edited else "")
     if r2["status"] != 0 or r2["p"] != r1["p"]:
-        return engine.bad("one further pass changes the code file of %s (status %s)" % (name, r2["status"]), name,
+        return engine.bad("one further pass changes the code file of %s%s (status %s)"
+                          % (name, " + %s" % case["tail"] if case.get("tail") else "", r2["status"]), key,
                           classes, stderr=r2["r"].err[-400:])
     s1, s2 = symtab(r1["files"][name + ".lst"]), symtab(r2["files"][name + ".lst"])
-    if s1 != s2 or s1 is None:
-        return engine.bad("one further pass changes the symbol table of %s" % name, name, classes)
-    return engine.ok("golden:" + name, classes)
+    if s1 != s2 or (s1 is None and not edited):       # (LISTING OFF at the end suppresses the table in both runs)
+        return engine.bad("one further pass changes the symbol table of %s" % name, key, classes)
+    return engine.ok(key, classes)
 
 
 def show(case):
@@ -487,7 +532,26 @@ def _k_absw_top(case, out):
     return any(it[0] == "ref" and it[1] in ("abs", "jmp") and labpos.get(it[2], -1) > i for i, it in enumerate(items))
 
 
+def _k_dpr_page(case, out):
+    """6809 with ASSUME DPR:<page != 0>: a forward auto-sized operand (lda/jmp) whose target sits on the first
+    bytes of the assumed page when the instruction takes its extended form and in the page below when it takes
+    the direct form: livelock only"""
+    if "golden" in case or case.get("target") != "6809":
+        return False
+    if "livelock" not in out.classes and "status 97" not in out.why:
+        return False
+    items = case["items"]
+    if not any(it[0] == "assume" and it[1] != 0 for it in items):
+        return False
+    labpos = {it[1]: i for i, it in enumerate(items) if it[0] == "lab"}
+    return any(it[0] == "ref" and it[1] in ("abs", "jmp") and labpos.get(it[2], -1) > i for i, it in enumerate(items))
+
+
 KNOWN = {
+    "dpr-page-oscillation": ("6809 with a non-zero assumed direct page: forward 'lda lab' / 'jmp lab' with lab within a "
+                             "byte of the start of the assumed page flips between the extended form (lab inside the page, "
+                             "direct addressing possible) and the direct form (lab one byte lower, outside the page) - "
+                             "the pass loop never ends", _k_dpr_page),
     "absw-top-oscillation": ("68000 family: forward 'lea lab,a0' / 'jmp lab' with lab within a few bytes of $FFFF8000: "
                              "the long form pushes lab to >= $FFFF8000 where abs.w (sign extended) fits, the short "
                              "form pulls it back below - the pass loop never ends", _k_absw_top),
